@@ -25,6 +25,7 @@ type ChainCase struct {
 	O1, O2, O3 string
 	Right      bool
 	Balanced   bool // (a o1 b) o2 (c o3 d): two intermediate results are alive at once
+	Flat       bool // a o1 b o2 c o3 d without parentheses: the grammar decides the grouping
 }
 
 // DataNumCase: Go numeric values entering through the data map.
@@ -245,10 +246,22 @@ func judgeArith(c ArithCase) *eng.Fail {
 // rendering: the plain text of such a number has billions of digits).
 func judgeArithFar(c ArithCase) *eng.Fail {
 	x, y := parseOperand(c.X), parseOperand(c.Y)
-	if (c.Op == "+" || c.Op == "-" || c.Op == "%") && (x.E-y.E > 200 || y.E-x.E > 200) {
+	if (c.Op == "+" || c.Op == "-") && (x.E-y.E > 200 || y.E-x.E > 200) {
 		return eng.F("harness/far-operands", "operands of %s too far apart for the reference", c.Op)
 	}
-	want, ok := refOp(c.Op, x, y)
+	var want ref.Dec
+	var ok bool
+	if c.Op == "%" && (x.E-y.E > 200 || y.E-x.E > 200) {
+		if y.IsZero() {
+			return nil
+		}
+		want, ok = ref.RemFar(x, y), true // modular arithmetic instead of alignment
+		if want.Digits() > 34 {
+			return nil
+		}
+	} else {
+		want, ok = refOp(c.Op, x, y)
+	}
 	if !ok {
 		return nil
 	}
@@ -290,7 +303,68 @@ func opName(op string) string {
 	return map[string]string{"+": "add", "-": "sub", "*": "mul", "/": "quo", "%": "rem"}[op]
 }
 
+// refArith evaluates a reference tree of number literals, parentheses, unary minus and the five
+// binary operators under the statement's rounding rule (every operation rounds on its own).
+func refArith(n *ref.N) (ref.Dec, bool) {
+	switch n.K {
+	case "num":
+		return ref.ParseDec(n.Val)
+	case "paren":
+		return refArith(n.Kids[0])
+	case "prefix":
+		v, ok := refArith(n.Kids[0])
+		if !ok || n.Op != "-" && n.Op != "+" {
+			return v, false
+		}
+		if n.Op == "-" {
+			v.Neg = !v.Neg && !v.IsZero()
+		}
+		return v.RoundHE(34), true
+	case "bin":
+		a, ok1 := refArith(n.Kids[0])
+		b, ok2 := refArith(n.Kids[1])
+		if !ok1 || !ok2 {
+			return a, false
+		}
+		switch n.Op {
+		case "+", "-", "*", "/", "%":
+			return refOp(n.Op, a, b)
+		}
+	}
+	return ref.Dec{}, false
+}
+
+// judgeFlat: a chain written WITHOUT parentheses; the grammar's precedence and left associativity
+// decide the grouping (reference parser), and every operation rounds on its own.
+func judgeFlat(c ChainCase) *eng.Fail {
+	expr := fmt.Sprintf("%s %s %s %s %s %s %s", c.A, c.O1, c.B, c.O2, c.C, c.O3, c.D)
+	rt, v := ref.Parse([]byte(expr))
+	if v != ref.Accept {
+		return eng.F("harness/flat-chain", "%s is not derivable", expr)
+	}
+	want, ok := refArith(rt)
+	if !ok {
+		return nil
+	}
+	o, perr := evalSrc("["+expr+"]", nil)
+	if perr != nil {
+		return eng.F("C04/parse", "%s does not parse: %v", expr, perr)
+	}
+	got, msg := elem0(o)
+	if msg != "" {
+		return eng.F("C04/eval", "%s: %s", expr, msg)
+	}
+	outcome(want.String())
+	if !got.Finite() || !got.Equal(want) {
+		return eng.F("C04/wrong-chain", "%s (no parentheses) = %s, expected %s: each operation rounds to 34 digits on its own, grouped as %s", expr, got, want, rt)
+	}
+	return nil
+}
+
 func judgeChain(c ChainCase) *eng.Fail {
+	if c.Flat {
+		return judgeFlat(c)
+	}
 	a, b, cc, d := parseOperand(c.A), parseOperand(c.B), parseOperand(c.C), parseOperand(c.D)
 	var want ref.Dec
 	var ok bool
@@ -500,19 +574,19 @@ func runC04(w *eng.W) {
 		}
 	}
 	// chains over a sub-grid
-	sub := []string{"1e0", "3e0", "7e-1", "(-2e0)", "9999999999999999999999999999999999e0", "1e-30", "5e30", "142857e-3", "(-125e-3)", "9007199254740993e0", "0e0", "6666666666666666666666666666666667e-20"}
+	sub := []string{"1e0", "3e0", "7e-1", "(-2e0)", "6666666666666666666666666666666667e-34", "1428571428571428571428571428571429e-34", "9999999999999999999999999999999999e0", "1e-30", "5e30", "142857e-3", "(-125e-3)", "9007199254740993e0", "0e0", "6666666666666666666666666666666667e-20"}
 	if q {
-		sub = sub[:8]
+		sub = sub[:9]
 	}
 	cops := []string{"+", "-", "*", "/", "%"}
 	seqsSharded(w, len(sub), 4, func(idx []int) {
 		seqs(len(cops), 3, func(o []int) {
-			for shape := 0; shape < 3; shape++ {
+			for shape := 0; shape < 4; shape++ {
 				w.State(1)
 				w.Trans(3)
 				w.Trace(1)
 				w.Note("leg:chains", 1)
-				c := ChainCase{A: sub[idx[0]], B: sub[idx[1]], C: sub[idx[2]], D: sub[idx[3]], O1: cops[o[0]], O2: cops[o[1]], O3: cops[o[2]], Right: shape == 1, Balanced: shape == 2}
+				c := ChainCase{A: sub[idx[0]], B: sub[idx[1]], C: sub[idx[2]], D: sub[idx[3]], O1: cops[o[0]], O2: cops[o[1]], O3: cops[o[2]], Right: shape == 1, Balanced: shape == 2, Flat: shape == 3}
 				w.Sample("chains", c)
 				c04Chain.Do(w, c)
 			}
@@ -674,7 +748,13 @@ func runC04(w *eng.W) {
 				for _, y := range group(ob)[:8] {
 					far(x, "*", y)
 					far(x, "/", y)
+					far(x, "%", y)
 				}
+			}
+			// remainders by and of ordinary numbers, any distance away
+			for _, y := range []string{"7e0", "3e0", "(-7e0)", "1234567e0", "3e-3200", "999999999999999999999999999999999e0", "1e0", "25e-2", "64e0", "7e8190", "7e8193", "7e-8193"} {
+				far(x, "%", y)
+				far(y, "%", x)
 			}
 		}
 	}
